@@ -193,12 +193,29 @@ func replaySQL(args []string) error {
 	in := fs.String("in", "", "ndjson from Gen_Lib")
 	seed := fs.Int64("seed", 1, "seed")
 	dictKind := fs.String("dict", "nasty", "nasty | ws (values differing only in white space)")
+	schedFile := fs.String("sched", "", "ndjson from MC_Cursor: step orders of two result sets read at the same time")
 	fs.Parse(args)
 	rng := rand.New(rand.NewSource(*seed))
 	dict := identDict(rng, 4)
 	if *dictKind == "ws" {
 		dict = wsDict()
 	}
+	var scheds [][]int
+	if *schedFile != "" {
+		if err := vx.ReadLines(*schedFile, func(line []byte) error {
+			var sl struct {
+				Tag   string `json:"tag"`
+				Order []int  `json:"order"`
+			}
+			if err := json.Unmarshal(line, &sl); err == nil && sl.Tag == "sched" {
+				scheds = append(scheds, sl.Order)
+			}
+			return nil
+		}); err != nil {
+			return err
+		}
+	}
+	nsched := 0
 	dir := vx.Scratch("replaysql")
 	defer os.RemoveAll(dir)
 	rep := &vx.Report{Notes: map[string]any{"cols": dict.Cols, "vals": dict.Vals}}
@@ -243,6 +260,22 @@ func replaySQL(args []string) error {
 					rep.Mismatch(map[string]any{"kind": "sql-rows", "dsn": opt, "rows": ds.Rows, "query": texts[qi], "got": got, "want": want})
 				}
 			}
+			// two result sets of this handle read at the same time, in the step orders TLC enumerated (UpdogCursor)
+			if len(scheds) > 0 && len(ds.Rows) >= 2 {
+				for k := 0; k < 6; k++ {
+					qa, qb := (n*3+k*5)%len(qs), (n*7+k*11+1)%len(qs)
+					sched := scheds[nsched%len(scheds)]
+					nsched++
+					rep.Steps++
+					ga, gb := overlapped(db, texts[qa], texts[qb], sched)
+					wa, wb := expectRows(dict, ds.Res[qa], qs[qa].GB), expectRows(dict, ds.Res[qb], qs[qb].GB)
+					if !sameRows(ga, wa) || !sameRows(gb, wb) {
+						rep.Mismatch(map[string]any{"kind": "sql-overlapping-result-sets", "dsn": opt, "rows": ds.Rows, "queryA": texts[qa], "queryB": texts[qb], "order": sched,
+							"gotA": ga, "wantA": wa, "gotB": gb, "wantB": wb})
+						break
+					}
+				}
+			}
 			db.Close()
 		}
 		if len(rep.Samples) < 2 && len(ds.Rows) >= 2 {
@@ -255,6 +288,85 @@ func replaySQL(args []string) error {
 	}
 	rep.Print()
 	return nil
+}
+
+// sqlCursor reads one result set step by step: open, one row per step, end.
+type sqlCursor struct {
+	text string
+	st   int // 0 idle, 1 open, 2 done
+	rows *sql.Rows
+	got  sqlRows
+}
+
+func (c *sqlCursor) step(db *sql.DB) {
+	if p := vx.Safely(func() {
+		switch c.st {
+		case 0:
+			rows, err := db.Query(c.text)
+			c.got = sqlRows{Rows: [][]string{}}
+			if err != nil {
+				c.got.Err, c.st = true, 2
+				return
+			}
+			c.rows, c.st = rows, 1
+			c.got.Cols, _ = rows.Columns()
+			cts, _ := rows.ColumnTypes()
+			for _, ct := range cts {
+				c.got.Types = append(c.got.Types, ct.DatabaseTypeName())
+			}
+		case 1:
+			if !c.rows.Next() {
+				if c.rows.Err() != nil {
+					c.got.Err = true
+				}
+				c.rows.Close()
+				c.st = 2
+				return
+			}
+			vals := make([]any, len(c.got.Cols))
+			ptrs := make([]any, len(vals))
+			for i := range vals {
+				ptrs[i] = &vals[i]
+			}
+			if err := c.rows.Scan(ptrs...); err != nil {
+				c.got.Err, c.st = true, 2
+				c.rows.Close()
+				return
+			}
+			r := make([]string, len(vals))
+			for i, v := range vals {
+				if v == nil {
+					c.got.Nulls = true
+					r[i] = "<nil>"
+				} else if b, ok := v.([]byte); ok {
+					r[i] = string(b)
+				} else {
+					r[i] = fmt.Sprint(v)
+				}
+			}
+			c.got.Rows = append(c.got.Rows, r)
+		}
+	}); p != nil {
+		c.got = sqlRows{Panic: p.Value}
+		if c.rows != nil {
+			vx.Safely(func() { c.rows.Close() })
+		}
+		c.st = 2
+	}
+}
+
+// overlapped runs two queries on one handle, stepping their result sets in the given order (1 = first,
+// 2 = second; a finished cursor is skipped; the order is repeated until both are done).
+func overlapped(db *sql.DB, a, b string, order []int) (sqlRows, sqlRows) {
+	cs := []*sqlCursor{{text: a}, {text: b}}
+	for guard := 0; guard < 100000 && (cs[0].st != 2 || cs[1].st != 2); guard++ {
+		i := order[guard%len(order)] - 1
+		if cs[i].st == 2 {
+			i = 1 - i
+		}
+		cs[i].step(db)
+	}
+	return cs[0].got, cs[1].got
 }
 
 type stmtLine struct {
@@ -701,12 +813,20 @@ func recordSQLConc(args []string) error {
 		if hung {
 			break // goroutines are stuck inside the driver; closing would hang as well
 		}
+		closeHung := false
 		for d := 0; d < nh; d++ {
 			if stmts[d] != nil {
-				stmts[d].Close()
+				watchdog(20*time.Second, func() error { return stmts[d].Close() })
 			}
 			o, _ := watchdog(20*time.Second, func() error { return dbs[d].Close() })
 			emit(map[string]any{"ev": "DBClose", "d": d + 1, "out": o})
+			if o == "hang" {
+				closeHung = true // the driver is wedged: every later call would hang as well
+				break
+			}
+		}
+		if closeHung {
+			break
 		}
 		for f := 1; f <= 2; f++ {
 			emit(map[string]any{"ev": "Probe", "f": f, "free": lockFree(paths[f])})
